@@ -852,6 +852,29 @@ func runContract(c *Ctx) {
 		}
 		c.Check(okElems, "columnStoreOrder elements", fn.Pos(), "every position recorded is ≥ 0")
 	}
+	// readOp: the operator token is one or two bytes long (the tokenizer advances by its length)
+	if fn := p.Func("sql", "readOp"); fn != nil {
+		paths, complete := EnumLits(fn.Blocks[0], 0, TabOpts{Termer: t})
+		good, why, n := complete, "", 0
+		for _, lp := range paths {
+			if lp.Exit == nil || len(lp.Exit.Results) != 1 {
+				continue
+			}
+			pr := newProver(p, t, lp)
+			if pr.g.inconsistent() {
+				continue
+			}
+			n++
+			lt, _, _ := pr.lenTermOf(lp.Exit.Results[0])
+			pr.applyDisj()
+			if !pr.g.entailsLE(zero, lt, -1) || !pr.g.entailsLE(lt, zero, 2) {
+				good, why = false, fmt.Sprintf("; not proven for %s on path [%s]", t.Term(lp.Exit.Results[0], lp.PS), pathDesc(lp))
+			}
+		}
+		c.Check(good && n > 0, "readOp result length", fn.Pos(), "readOp returns one or two bytes of its (non-empty) argument%s", why)
+	} else {
+		c.Undecided("readOp result length", token.NoPos, "sql.readOp not found")
+	}
 	// scan-error contract: scanInt64/scanFloat64/scanTime return a non-nil error only after establishing i < len(r)
 	for _, name := range []string{"scanInt64", "scanFloat64", "scanTime"} {
 		fn := p.Func(".", "(Row)."+name)
